@@ -147,6 +147,9 @@ def finish(args, P, results, bounded, known, ax_n, t0, seed):
                 trusted.append(f"trusted contract (body not verified): {k} -- {c.note}")
         for k, v in builtins_model.TRUSTED.items():
             trusted.append(f"external: {k} -- {v}")
+        from pyvc import effects as _effects
+        for k, v in _effects.TRUSTED.items():
+            trusted.append(f"file-system model: {k} -- {v}")
         for k, v in builtins_model.AXIOMS.items():
             trusted.append(f"builtin axiom {k}: {v} (cross-checked against CPython on {ax_n} instances this run)")
     except Exception:
